@@ -80,6 +80,60 @@ fn palette() -> &'static Vec<Vec<u8>> {
             v.push(encode(&carrier(k, prot, Item::Map(vec![(Item::Int(4), Item::Bytes(vec![0x31]))]))));
             v.push(encode(&carrier(k, Item::Bytes(vec![]), Item::Map(vec![]))));
         }
+        // integers in the bignum spellings the CBOR library does not fold (tag 2 / 3 over an indefinite-length
+        // byte string, over a zero-padded 17-byte string) as an opaque header value, as a header label and as the
+        // algorithm, in the unprotected header and in the protected one: whatever the untagged decoder makes of
+        // them, the tagged decoder makes the same of them
+        const PH: i128 = 0x5a5a_a5a5_1234_5678;
+        let ph = encode(&Item::Int(PH));
+        let spellings: [&[u8]; 4] = [&[0xc2, 0x5f, 0x41, 0x01, 0xff], &[0xc3, 0x5f, 0x41, 0x06, 0xff], &[0xc2, 0x51, 0, 0, 0, 0, 0, 0, 0, 0, 0, 0, 0, 0, 0, 0, 0, 0, 0x01], &[0xc2, 0x5f, 0x41, 0x01, 0x40, 0xff]];
+        for k in [Kind::Sign1, Kind::Mac] {
+            for (pos, hdr) in [
+                Item::Map(vec![(Item::Int(100), Item::Int(PH))]),
+                Item::Map(vec![(Item::Int(PH), Item::Null)]),
+                Item::Map(vec![(Item::Int(1), Item::Int(PH))]),
+                Item::Map(vec![(Item::Int(100), Item::Array(vec![Item::Map(vec![(Item::Int(PH), Item::Int(PH))])]))]),
+            ]
+            .into_iter()
+            .enumerate()
+            {
+                for sp in spellings {
+                    for protected in [false, true] {
+                        if protected && pos != 0 {
+                            continue;
+                        }
+                        let body = if protected { carrier(k, crate::cbor::Wrapped::new(hdr.clone()), Item::Map(vec![])) } else { carrier(k, Item::Bytes(vec![]), hdr.clone()) };
+                        let mut b = encode(&body);
+                        // splice the spelling over every placeholder (lengths of enclosing byte strings are
+                        // short-form here, so a protected wrapper's length byte is fixed up by hand)
+                        let mut out = vec![];
+                        let mut i = 0;
+                        let mut n = 0;
+                        while i < b.len() {
+                            if b[i..].starts_with(&ph) {
+                                out.extend_from_slice(sp);
+                                i += ph.len();
+                                n += 1;
+                            } else {
+                                out.push(b[i]);
+                                i += 1;
+                            }
+                        }
+                        if protected {
+                            // [0] array head, [1] bstr head (short form: content < 24 bytes either way)
+                            let delta = n * sp.len() as isize - n * ph.len() as isize;
+                            let new_len = (b[1] & 0x1f) as isize + delta;
+                            if !(0..24).contains(&new_len) {
+                                continue;
+                            }
+                            out[1] = 0x40 | new_len as u8;
+                        }
+                        b = out;
+                        v.push(b);
+                    }
+                }
+            }
+        }
         v.push(encode(&Item::Int(0)));
         v.push(encode(&Item::Array(vec![])));
         v.push(encode(&Item::Map(vec![])));
